@@ -73,6 +73,21 @@ class VFModel(Model):
                 [float(self._log_l(x[i: i + 1])[0]) for i in range(x.size)]
             )
 
+    def _ref_bounds(self):
+        """Bounds as the harness constructed them: name -> (lo, hi)."""
+        raise NotImplementedError
+
+    def ref_in_bounds(self, x):
+        """Reference for 'inside the prior bounds', looked up by parameter
+        name from the values the model was built with (not nessai's
+        `Model.in_bounds`)."""
+        x = np.atleast_1d(x)
+        ok = np.ones(x.shape, dtype=bool)
+        for n, (a, b) in self._ref_bounds().items():
+            v = np.asarray(x[n], dtype=float)
+            ok &= (v >= a) & (v <= b)
+        return ok
+
     def ref_log_prior(self, x):
         with self.quiet():
             return np.array(
@@ -90,7 +105,7 @@ class GaussUniform(VFModel):
     """Unit Gaussian likelihood centred at `mu`, uniform prior on a box."""
 
     def __init__(self, dims=2, lo=-5.0, hi=5.0, mu=0.0, names=None,
-                 offset=0.0):
+                 offset=0.0, bounds_order="names"):
         self._init_common()
         # constant added to the log-likelihood (an unnormalised likelihood)
         self.offset = float(offset)
@@ -99,13 +114,21 @@ class GaussUniform(VFModel):
         hi = np.broadcast_to(np.asarray(hi, float), (dims,))
         self.mu = [float(v) for v in
                    np.broadcast_to(np.asarray(mu, float), (dims,))]
-        self.bounds = {n: [float(a), float(b)]
-                       for n, a, b in zip(self.names, lo, hi)}
+        bounds = {n: [float(a), float(b)]
+                  for n, a, b in zip(self.names, lo, hi)}
+        if bounds_order == "reversed":
+            # the bounds dictionary is looked up by name: the order of its
+            # keys is free input
+            bounds = dict(reversed(list(bounds.items())))
+        self.bounds = bounds
         self._lo = [float(v) for v in lo]
         self._hi = [float(v) for v in hi]
         self._w = [b - a for a, b in zip(self._lo, self._hi)]
         self._log_vol = float(sum(math.log(w) for w in self._w))
         self._norm = -0.5 * dims * LOG_2PI
+
+    def _ref_bounds(self):
+        return {n: (a, b) for n, a, b in zip(self.names, self._lo, self._hi)}
 
     # nessai API
     def log_prior(self, x):
@@ -199,6 +222,9 @@ class GaussGaussPrior(VFModel):
             math.log(self.s_p) + 0.5 * LOG_2PI + math.log(self._pb - self._pa)
         )
         self._ll_norm = -(math.log(self.s_l) + 0.5 * LOG_2PI)
+
+    def _ref_bounds(self):
+        return {n: (-self.b, self.b) for n in self.names}
 
     def log_prior(self, x):
         ok = self.in_bounds(x)
@@ -367,6 +393,9 @@ class Rosenbrock(VFModel):
         self.names = [f"x{i}" for i in range(dims)]
         self.bounds = {n: [-5.0, 5.0] for n in self.names}
         self._log_vol = dims * math.log(10.0)
+
+    def _ref_bounds(self):
+        return {n: (-5.0, 5.0) for n in self.names}
 
     def log_prior(self, x):
         return np.where(self.in_bounds(x), -self._log_vol, -np.inf)
